@@ -81,7 +81,7 @@ class Oracle:
                 red = op[3] if len(op) > 3 else "same"
                 self.parsed.append((k, op[1], op[2], red, rs.clock.now,
                                     rs.redirect_for(op[1], op[2], red) if k == "tparse" else None))
-            if k == "tparse" and rs.oidc and op[2][0] == "tok":
+            if k == "tparse" and rs.oidc and op[2][0] == "tok" and op[2][1] < len(rs.tokobj):    # (a reference to a token never minted is garbage)
                 t = rs.tokobj[op[2][1]]
                 if t.token_class == "authorization_code" and out[0] == "err" and self.success.get(op[2][1]):
                     # second presentation of an already exchanged code at the OIDC endpoint:
